@@ -6,6 +6,7 @@ import (
 	"flag"
 	"fmt"
 	"os"
+	"path/filepath"
 	"runtime/debug"
 	"runtime/pprof"
 	"sort"
@@ -35,7 +36,28 @@ func main() {
 	noEvidence := flag.Bool("no-evidence", false, "do not write evidence/replay files")
 	verbose := flag.Bool("v", false, "print every obligation")
 	mutant := flag.String("mutant", "", "apply the named in-memory mutant before checking (self-test/debug)")
+	dumpPatch := flag.String("dump-patch", "", "debug: apply the given unified diff in memory and write the patched files below -dump-out")
+	dumpOut := flag.String("dump-out", "", "debug: output directory of -dump-patch")
 	flag.Parse()
+	if *dumpPatch != "" {
+		b, err := os.ReadFile(*dumpPatch)
+		if err != nil {
+			fmt.Fprintln(os.Stderr, err)
+			os.Exit(2)
+		}
+		ov, err := applyUnifiedDiff(repoDir(), string(b))
+		if err != nil {
+			fmt.Fprintln(os.Stderr, "APPLY-FAILED:", err)
+			os.Exit(3)
+		}
+		for p, c := range ov {
+			rel, _ := filepath.Rel(repoDir(), p)
+			q := filepath.Join(*dumpOut, rel)
+			os.MkdirAll(filepath.Dir(q), 0o755)
+			os.WriteFile(q, c, 0o644)
+		}
+		return
+	}
 	if pf := os.Getenv("PLUSH_PROF"); pf != "" {
 		if f, err := os.Create(pf); err == nil {
 			pprof.StartCPUProfile(f)
